@@ -47,9 +47,20 @@ fn site_expr(kind: &str, x: &str) -> Expr {
             let t = Ty::tup(vec![Ty::U(8), Ty::opt(Ty::arr(Ty::U(8), 2))]);
             block(vec![let_(Pat::Tuple(vec![Pat::id("p"), Pat::Ignore]), t, call(CallName::Dbg, vec![Expr::Tuple(vec![var(x), Expr::Some(Box::new(Expr::Array(vec![var(x), dec(3)])))])]))], Some(var("p")))
         }
+        k if k.starts_with("dbg-array-") || k.starts_with("dbg-list-") => {
+            // dbg! at a type with more leaves than any integer: "dbg-array-<n>" = [u8; n], "dbg-list-<k>" = k elements
+            // in List<u8, 2 * next_pow2(k)>; element 0 is the variable, the others distinct constants
+            let n: usize = k.rsplit('-').next().unwrap().parse().unwrap();
+            let elems: Vec<Expr> = (0..n).map(|i| if i == 0 { var(x) } else { dec((i as u128 * 7 + 3) % 251) }).collect();
+            let (ty, e) = if k.starts_with("dbg-array-") { (Ty::arr(Ty::U(8), n), Expr::Array(elems)) } else { (Ty::list(Ty::U(8), 2 * n.next_power_of_two()), Expr::List(elems)) };
+            block(vec![let_(Pat::id("wide_"), ty, call(CallName::Dbg, vec![e]))], Some(var(x)))
+        }
         other => panic!("unknown site kind {other}"),
     }
 }
+
+/// Site kinds whose programs are large: run in two contexts and three layouts only.
+const WIDE_KINDS: [&str; 4] = ["dbg-array-256", "dbg-array-257", "dbg-array-1000", "dbg-list-600"];
 
 /// contexts: where the site expression is placed
 const CONTEXTS: [&str; 7] = ["main", "fn-uncalled", "fn-once", "fn-twice", "fold-body", "for_while-body", "nested-fns"];
@@ -318,6 +329,13 @@ pub fn run(rep: &Report) -> i32 {
             }
         }
     }
+    for k in WIDE_KINDS {
+        for c in ["main", "fn-once"] {
+            for li in [0usize, 3, 8] {
+                jobs.push((k.to_string(), None, c.to_string(), li.min(ALL_LAYOUTS.len() - 1), 0));
+            }
+        }
+    }
     // pairs of kinds (second site in main after the first context)
     for k in &kinds {
         for k2 in &kinds {
@@ -328,7 +346,7 @@ pub fn run(rep: &Report) -> i32 {
             }
         }
     }
-    rep.set("bounds", json!({"call_site_programs": jobs.len(), "kinds": kinds, "contexts": CONTEXTS, "layouts": ALL_LAYOUTS.iter().map(|l| format!("{l:?}")).collect::<Vec<_>>(), "family_programs": "C01 family A@1, up to 8 witness assignments each, both flags"}));
+    rep.set("bounds", json!({"call_site_programs": jobs.len(), "kinds": kinds, "wide_kinds": WIDE_KINDS, "contexts": CONTEXTS, "layouts": ALL_LAYOUTS.iter().map(|l| format!("{l:?}")).collect::<Vec<_>>(), "family_programs": "C01 family A@1, up to 8 witness assignments each, both flags"}));
     par_for(&jobs, rep, 4, |i, (k, k2, c, li, oi)| {
         let prog = site_program(k, k2.as_deref(), c);
         let opts = match oi {
